@@ -18,6 +18,13 @@ import (
 
 func init() {
 	props["c18"] = &propCmd{gen: c18Gen, impl: c18Impl, oracle: c18Oracle}
+	earlyHooks = append(earlyHooks, func() bool {
+		if os.Getenv("VH_DUMP") == "1" {
+			dumpEnvMain()
+			return true
+		}
+		return false
+	})
 }
 
 // shell-significant bytes (plus a few ordinary ones)
